@@ -49,7 +49,7 @@ func (d *Device) handleKEYEvent(ie *input.InputEvent) {
 		switch ie.Event.Value {
 		case EV_KEY_PRESS:
 			d.actionTracker[action] = true
-			if !d.checkDoubleActions() {
+			if action == config.Panic || !d.checkDoubleActions() { // panic always works, also while an up/down pair is held
 				d.invokeActionPress(action)
 			}
 		case EV_KEY_RELEASE:
